@@ -108,7 +108,7 @@ func init() {
 		Assumptions: commonAssumptions, MinEvals: 3000000,
 		MinCounters: map[string]int64{"error_returns_observed": 2000000, "failing_member_string": 50000, "failing_member_number": 50000, "failing_member_array": 50000, "failing_member_object": 50000, "failing_member_null": 20000, "failing_member_bool": 20000}})
 	register(&Spec{ID: "C10", Run: RunC10, StallSeconds: 120,
-		Rule:        "inputs (held in read-only guard pages): raw random bytes and structural soups, a third of the W1 sweep (all of it in thorough), W3, W4 incl. depth 10,001+, W2 sample, W5 megabyte tokens and 1,048,576-deep nestings; each through every exported function (44 call forms; nil/fresh/long-lived buffers, one long-lived ValueReader) and through both traversals under 6 (quick) / 16 (thorough) hostile handler programs returning negative, beyond-end, near-MaxInt, MinInt, off-by-one and mid-token offsets; distinct by hash; non-trivial = at least 2 bytes",
+		Rule:        "inputs (held in read-only guard pages): raw random bytes and structural soups, a third of the W1 sweep (all of it in thorough), W3, W4 incl. depth 10,001+, W2 sample, W5 megabyte tokens and 1,048,576-deep nestings, number literals with every decimal exponent -400..400 and the float thresholds, every surrogate escape and a sample of the string-template sweep; each through every exported function (44 call forms; nil/fresh/long-lived buffers, one long-lived ValueReader) and through both traversals under 6 (quick) / 16 (thorough) hostile handler programs returning negative, beyond-end, near-MaxInt, MinInt, off-by-one and mid-token offsets; distinct by hash; non-trivial = at least 2 bytes",
 		Assumptions: append([]string{"non-termination is detected by a stall watchdog (no new case for 120 s) confirmed by a single-case replay under a 10-minute limit; a fired-but-unconfirmed watchdog is inconclusive"}, commonAssumptions...),
 		MinEvals:    20000000,
 		MinCounters: map[string]int64{"hostile_programs_run": 5000000, "out_of_range_offsets_that_must_be_reported": 500000, "hostile_offsets_near_maxint": 100000, "hostile_offsets_negative": 100000, "hostile_offsets_mid_token": 100000, "inputs_in_read_only_pages": 1000000}})
@@ -129,10 +129,10 @@ func init() {
 		MinEvals:    10000000,
 		MinCounters: map[string]int64{"inputs_in_read_only_pages": 100000, "append_semantics_calls": 2000000, "scratch_independence_calls": 500000, "returned_strings_rechecked_after_overwrites": 300000, "returned_trees_rechecked_after_overwrites": 100000}})
 	register(&Spec{ID: "C17", Run: RunC17,
-		Rule:        "EXHAUSTIVE: every 0-, 1- and 2-byte string and every 3-byte string with a lead byte >= 0x80 (8,454,401 strings); plus generated 4-byte boundary sequences and longer strings, generated value trees with invalid UTF-8 in strings and keys at every depth (argument snapshot compared, result scribbled to expose shared containers), and W3 documents decoded by ReadValue and compared with encoding/json when no keys collide; distinct by construction; non-trivial = not valid UTF-8 (strings), every tree, every compared document",
+		Rule:        "EXHAUSTIVE: every 0-, 1- and 2-byte string and every 3-byte string with a lead byte >= 0x80 (8,454,401 strings); plus a position sweep (one or two invalid bytes at every offset of plain strings of every length 1..72), generated 4-byte boundary sequences and longer strings, generated value trees with invalid UTF-8 in strings and keys at every depth (argument snapshot compared, result scribbled to expose shared containers), and W3 documents decoded by ReadValue and compared with encoding/json when no keys collide; distinct by construction; non-trivial = not valid UTF-8 (strings), every tree, every compared document",
 		Assumptions: commonAssumptions, MinEvals: 10000000,
 		Exhaustive:  "all byte strings of length <= 2 and all 3-byte strings with lead byte >= 0x80 are enumerated completely in both tiers",
-		MinCounters: map[string]int64{"exhaustive_space_completed": 1, "invalid_utf8_replaced": 5000000, "valid_utf8_identity_checked": 50000, "trees_converted": 50000, "decoded_documents_compared_with_encoding_json": 10000}})
+		MinCounters: map[string]int64{"exhaustive_space_completed": 1, "position_sweep_cases": 50000, "invalid_utf8_replaced": 5000000, "valid_utf8_identity_checked": 50000, "trees_converted": 50000, "decoded_documents_compared_with_encoding_json": 10000}})
 }
 
 func init() {
@@ -155,7 +155,7 @@ func init() {
 
 func init() {
 	register(&Spec{ID: "C20", Run: RunC20, Shards: 8, Env: []string{"GOMAXPROCS=1"},
-		Rule:        "cases are (i) growth series: 25 adversarial document families (a large container followed by many small siblings as array elements / object values / two levels down, failing siblings, escapes at every nesting level, many short escaped strings or keys, deep arrays/objects/mixtures up to depth 9,600, flat and long tokens) x 8 entry points (ReadValue, reused ValueReader, Valid and SkipValue with nil/reused buffer, SkipValueFast, Handle*Values with a declining and with a re-entrant decoding handler), each measured with runtime.MemStats.TotalAlloc at n, 2n, 4n; and (ii) histories: 7 large documents x 8 small/failing documents x 6 reused-reader/buffer entry points, one large call followed by 300 (quick) / 3,000 (thorough) small calls, each measured separately; GOMAXPROCS=1 and GC off during each measurement make the figures reproducible; every series and history is a distinct non-trivial case",
+		Rule:        "cases are (i) growth series: 30 adversarial document families (a large container followed by many small siblings as array elements / object values / two levels down, failing siblings, escapes at every nesting level, many short escaped strings or keys, deep arrays/objects/mixtures up to depth 9,600, flat and long tokens, long runs of \\u escapes and surrogate pairs in values and keys) x 8 entry points (ReadValue, reused ValueReader, Valid and SkipValue with nil/reused buffer, SkipValueFast, Handle*Values with a declining and with a re-entrant decoding handler), each measured with runtime.MemStats.TotalAlloc at n, 2n, 4n; and (ii) histories: 7 large documents x 8 small/failing documents x 6 reused-reader/buffer entry points, one large call followed by 300 (quick) / 3,000 (thorough) small calls, each measured separately; GOMAXPROCS=1 and GC off during each measurement make the figures reproducible; every series and history is a distinct non-trivial case",
 		Assumptions: append([]string{"'a fixed constant multiple' is judged with explicit thresholds recorded in the evidence samples: growth ratio < 2.5 over a 4x size step for series allocating >= 256 KB, <= 16 KB per input byte + 1 MB absolutely, and <= 64 bytes per input byte + 8 KB for every small call after the third one following a large document"}, commonAssumptions...),
 		MinEvals:    50000,
 		MinCounters: map[string]int64{"growth_series_measured": 200, "growth_series_judged": 20, "histories_measured": 336}})
